@@ -42,6 +42,8 @@ type RunSpec struct {
 	Witnesses  int      `json:"witnesses"`   // number of path witnesses to replay natively
 	SolverMs   int      `json:"solver_ms"`
 	MaxDepth   int      `json:"max_depth"`
+	Fixed      []uint64 `json:"fixed,omitempty"`
+	NoMerge    bool     `json:"no_merge,omitempty"`
 }
 
 type RunSummary struct {
@@ -102,9 +104,39 @@ func fmtObs(m *Machine, o obsEntry) string {
 func (m *Machine) RunPath(item WorkItem, entry *ssa.Function, args []value, emit func(WorkItem)) *PathResult {
 	m.globals = map[*ssa.Global]*value{}
 	m.inited = map[*ssa.Package]bool{}
-	m.tt = NewTermTable()
-	m.pc = m.pc[:0]
-	m.synced = 0
+	if m.tt == nil || len(m.tt.terms) > 400000 || m.solver.Epoch != m.epoch {
+		m.tt = NewTermTable()
+		if m.solver.Epoch == m.epoch {
+			m.solver.Reset()
+		}
+		m.epoch = m.solver.Epoch
+		m.prevPC, m.prevTrail, m.prevPCAt = nil, nil, nil
+	}
+	// how much of the previous path's condition is shared with this one?
+	L := 0
+	for L < len(item.Trail) && L < len(m.prevTrail) && sameDecision(item.Trail[L], m.prevTrail[L]) {
+		L++
+	}
+	m.shared = 0
+	if L > 0 && L <= len(m.prevPCAt) {
+		if L < len(m.prevPCAt) {
+			m.shared = m.prevPCAt[L]
+		} else {
+			m.shared = len(m.prevPC)
+		}
+		// an open value decision asserts exclusions that the previous run did not have
+		if L < len(item.Trail) && item.Trail[L].Kind == dValue && L < len(m.prevPCAt) {
+			m.shared = m.prevPCAt[L]
+		}
+	}
+	if m.shared > m.solver.Level() {
+		m.shared = m.solver.Level()
+	}
+	m.solver.PopTo(m.shared)
+	m.pc = nil
+	m.pcAt = nil
+	m.pathVars = nil
+	m.synced = m.shared
 	m.trail = append([]Decision(nil), item.Trail...)
 	m.dpos = 0
 	md := item.Model
@@ -131,11 +163,11 @@ func (m *Machine) RunPath(item WorkItem, entry *ssa.Function, args []value, emit
 	m.clock = 0
 	m.chanSeq = 0
 	m.usedUF = false
+	m.fixedPos = 0
 	m.abortCh = make(chan struct{})
 	m.endCh = make(chan struct{})
 	m.endOnce = sync.Once{}
 	m.rootFn = entry
-	m.solver.BeginPath()
 
 	g0 := &G{id: 0, wake: make(chan struct{}, 1), doneIdx: -1}
 	m.gs = append(m.gs, g0)
@@ -188,8 +220,21 @@ func (m *Machine) RunPath(item WorkItem, entry *ssa.Function, args []value, emit
 		res.Outputs = append(res.Outputs, fmtObs(m, o))
 	}
 	res.UsedUF = m.usedUF
-	m.solver.EndPath()
+	m.prevPC, m.prevTrail, m.prevPCAt = m.pc, m.trail, m.pcAt
+	if m.synced > len(m.pc) {
+		m.solver.PopTo(len(m.pc))
+	}
 	return res
+}
+
+func sameDecision(a, b Decision) bool {
+	if a.Kind != b.Kind || a.Out != b.Out || a.Open != b.Open {
+		return false
+	}
+	if a.Open {
+		return false // open decisions are decided afresh
+	}
+	return true
 }
 
 func panicLabel(detail string) string {
@@ -219,7 +264,7 @@ func Explore(p *Program, entry *ssa.Function, spec *RunSpec) *RunSummary {
 	if solverMs <= 0 {
 		solverMs = 20000
 	}
-	opts := &Options{Budget: budget, MaxPreempt: maxPreempt, SolverKind: spec.Solver, TimeoutMs: solverMs, MapOrder: spec.MapOrder, PoolReuse: spec.PoolReuse, MaxDepth: spec.MaxDepth}
+	opts := &Options{Fixed: spec.Fixed, NoMerge: spec.NoMerge, Budget: budget, MaxPreempt: maxPreempt, SolverKind: spec.Solver, TimeoutMs: solverMs, MapOrder: spec.MapOrder, PoolReuse: spec.PoolReuse, MaxDepth: spec.MaxDepth}
 	maxPaths := spec.MaxPaths
 	if maxPaths <= 0 {
 		maxPaths = 2_000_000
@@ -245,6 +290,7 @@ func Explore(p *Program, entry *ssa.Function, spec *RunSpec) *RunSummary {
 	}
 
 	var mu sync.Mutex
+	outstanding := 1 // items created and not yet finished
 	cond := sync.NewCond(&mu)
 	stack := []WorkItem{{}}
 	active := 0
@@ -264,27 +310,51 @@ func Explore(p *Program, entry *ssa.Function, spec *RunSpec) *RunSummary {
 				return
 			}
 			defer m.solver.Close()
+			var local []WorkItem // LIFO: children of the last path first (longest shared prefix)
 			for {
-				mu.Lock()
-				for len(stack) == 0 && active > 0 && !stop {
-					cond.Wait()
-				}
-				if stop || (len(stack) == 0 && active == 0) {
+				var item WorkItem
+				if len(local) > 0 {
+					item = local[len(local)-1]
+					local = local[:len(local)-1]
+					mu.Lock()
+					if stop {
+						mu.Unlock()
+						break
+					}
+					active++
 					mu.Unlock()
-					cond.Broadcast()
-					break
+				} else {
+					mu.Lock()
+					for len(stack) == 0 && outstanding > 0 && !stop {
+						cond.Wait()
+					}
+					if stop || (len(stack) == 0 && outstanding == 0) {
+						mu.Unlock()
+						cond.Broadcast()
+						break
+					}
+					item = stack[len(stack)-1]
+					stack = stack[:len(stack)-1]
+					active++
+					mu.Unlock()
 				}
-				item := stack[len(stack)-1]
-				stack = stack[:len(stack)-1]
-				active++
-				mu.Unlock()
 
 				var newItems []WorkItem
 				res := m.RunPath(item, entry, args, func(it WorkItem) { newItems = append(newItems, it) })
+				local = append(local, newItems...)
 
 				mu.Lock()
 				active--
-				stack = append(stack, newItems...)
+				// share work: if the global stack is low, donate the oldest (shallowest) local items
+				if len(stack) < workers && len(local) > 1 {
+					give := len(local) / 2
+					if give > 8 {
+						give = 8
+					}
+					stack = append(stack, local[:give]...)
+					local = append([]WorkItem(nil), local[give:]...)
+				}
+				outstanding += len(newItems) - 1
 				sum.Paths++
 				sum.Decisions += int64(len(res.Trail))
 				if len(res.Trail) > sum.MaxTrail {
@@ -327,7 +397,7 @@ func Explore(p *Program, entry *ssa.Function, spec *RunSpec) *RunSummary {
 					if len(sum.Samples) < 5 || (!seenCoverSets[ck] && len(sum.Samples) < 12) {
 						sum.Samples = append(sum.Samples, map[string]any{"nondets": compactND(res.Nondets), "cover": cl, "observed": res.Outputs, "decisions": len(res.Trail)})
 					}
-					if (len(sum.Witnesses) < wantWitness) && (!seenCoverSets[ck] || len(sum.Witnesses) < wantWitness/2) {
+					if (len(sum.Witnesses) < wantWitness) && (!seenCoverSets[ck] || len(sum.Witnesses) < wantWitness/2 || wantWitness > 100) {
 						sum.Witnesses = append(sum.Witnesses, &Witness{Nondets: res.Nondets, Obs: res.Outputs, Covers: cl})
 					}
 					seenCoverSets[ck] = true
